@@ -148,6 +148,9 @@ def property_violations(pid, L, view, g) -> list[str]:
             out.append('the nodes are not exactly one per (asset, resolved step)')
             return out
         names_unique = len({a[1] for a in view[0]}) == len(view[0])
+        if not names_unique:
+            # every model of the run is built through add_asset, which renames duplicates
+            out.append('two assets of the model share a name, so the full names of their nodes are not unique')
         by = {}
         for n in impl_nodes:
             by.setdefault(key(n), []).append(n)
@@ -281,6 +284,10 @@ def ops_language():
     steps.append(LG.step('sdup', 'or', reaches=[CO(F('pb'), S('t')), CO(F('pb'), S('t'))]))
     steps.append(LG.step('sdup2', 'and', reaches=[CO(F('pb'), S('t')), CO(U(F('pb'), F('qb')), S('t'))]))
     steps.append(LG.step('ex', 'exist', requires=[I(F('pb'), F('qb'))]))
+    # requirements with a set operator below a collect: evaluated per asset reached, not over the pooled targets
+    steps.append(LG.step('exi', 'exist', requires=[CO(F('pb'), I(F('pb'), F('qb')))]))
+    steps.append(LG.step('nexd', 'notExist', requires=[CO(F('pb'), D(F('pb'), F('qb')))]))
+    steps.append(LG.step('df', 'defense', ttc=LG.TTC_ENABLED))
     return LG.lang([LG.asset('Aa', None, steps, variables=[('vv', CO(F('pb'), F('qb')))]), LG.asset('Bb', 'Aa'),
                     LG.asset('Cc', 'Bb'), LG.asset('Dd', 'Cc')],
                    [LG.assoc('Pp', 'Aa', 'pa', 'Aa', 'pb'), LG.assoc('Qq', 'Aa', 'qa', 'Aa', 'qb')])
@@ -327,11 +334,26 @@ def make_cases(pid, impl, tier, seed):
     if pid == 'C09':
         n = {'quick': 120, 'thorough': 2000}[tier]
     out = []
-    if pid == 'C01':
+    if pid in ('C01', 'C02'):
         L = ops_language()
         lg, lcf = MG.make_lang(impl, L)
         for stream, m in ops_models(impl, lg, lcf, rng, tier):
-            out.append({'L': L, 'lg': lg, 'm': m, 'stream': stream})
+            if pid == 'C01' or stream == 'dense':
+                out.append({'L': L, 'lg': lg, 'm': m, 'stream': stream})
+    if pid == 'C02':
+        # names that collide with automatically renamed ones, in every order of three additions
+        import itertools
+        from maltoolbox.model import Model
+        L = ops_language()
+        lg, lcf = MG.make_lang(impl, L)
+        for names in itertools.product(['x', 'x:1', 'x:0', 'x:1:2'], repeat=3):
+            m = Model('names', lcf)
+            for nm in names:
+                a = lcf.ns.Aa(name=nm)
+                if rng.random() < 0.5:
+                    a.df = rng.choice([0.0, 0.5])
+                m.add_asset(a)
+            out.append({'L': L, 'lg': lg, 'm': m, 'stream': 'names'})
     gen = LG.LangGen(rng, reuse_fields=0.2)
     for i in range(n):
         L = gen.gen()
@@ -432,7 +454,7 @@ def check(pid: str, tier: str, seed: int):
                    'many-to-many / self links' + (', names containing ":" and colliding names' if pid == 'C02' else '') +
                    '); non-trivial = the generated graph has at least one edge; distinct by the whole observation',
            'samples': [real[0]['view'], real[-1]['obs'][1][:3] if real and real[-1]['obs'][0] == 'ok' else None] if real else [],
-           'operator_histogram': ops_hist, 'streams': {k: sum(1 for m in real if m.get('stream') == k) for k in ('exhaustive', 'dense', 'random', 'regenerated')}, 'premises_met': counters.get('PREMISES', 0),
+           'operator_histogram': ops_hist, 'streams': {k: sum(1 for m in real if m.get('stream') == k) for k in ('exhaustive', 'dense', 'names', 'random', 'regenerated')}, 'premises_met': counters.get('PREMISES', 0),
            'error_outcomes': sum(1 for m in real if m['obs'][0] == 'error'), 'edges_total': n_edges,
            'mismatches': len(bad), 'exhaustive': False}
     return {'violations': violations, 'coverage': cov,
